@@ -204,6 +204,10 @@ func init() {
 			}
 			return mkval(ps.trunc, types.Bool)
 		},
+		"zzExactItoa": func(fr *frame, args []value) value {
+			fr.i.ps.exactItoa = args[0].(bool)
+			return nil
+		},
 		"zzSymbolic": func(fr *frame, args []value) value { return true },
 		"zzNote": func(fr *frame, args []value) value {
 			fr.i.ps.res.Assumes[args[0].(string)] = true
